@@ -12,11 +12,11 @@ model the exact nets: agreement therefore also states insensitivity to such pert
 
 Known-finding classes (`classify`; all three reproduce on the pinned tree, minimal inputs in
 corpus/C17/000-known-defect-reproducers.json):
-  nodeview-section-wrong-frame        NodeView.section computes `self.node.obj.section(*section)` with the section of
-                                      the MAPPED frame; any view whose orientation moves the section raises
-                                      OrientationError.  The model follows the PROPERTY (section taken in the reference
-                                      frame, `orientation.map_section(section)`), and also returns the literal-code answer
-                                      so that `compare` can say that the implementation equals the model of the code.
+  nodeview-section-wrong-frame        (FIXED by 8e83d07; label kept so that a regression is reported by name)
+                                      the snapshot's NodeView.section computed `self.node.obj.section(*section)` with the
+                                      section of the MAPPED frame; any view whose orientation moves the section raised
+                                      OrientationError.  Model and code now both take the section in the reference frame
+                                      (`orientation.map_section(section)`).
   compute-normalises-weights-only     Orientation.compute divides only the weight column by its sum: two rational nets
                                       with equal pre-multiplied coordinates and weights differing by a global factor
                                       (different geometry) are reported as matching.  Model follows the code.
@@ -542,22 +542,7 @@ def run_impl(sp, s):
 
 
 def compare(s, iv, mv):
-    k = s['kind']
-    note = ''
-    if k == 'model' and not isinstance(iv, Err) and isinstance(mv, list) and len(mv) == 6:
-        # vsec answers of the model are pairs [property frame, code frame]; the property frame counts
-        mv = list(mv)
-        qs = []
-        for q, a, ia in zip(s['queries'], mv[5], iv[5]):
-            if q[0] == 'vsec' and isinstance(a, list) and len(a) == 2:
-                if diff(ia, a[0]) is not None and diff(ia, a[1]) is None:
-                    note = ' [implementation = model of the code as written (section taken in the mapped frame)]'
-                qs.append(a[0])
-            else:
-                qs.append(a)
-        mv[5] = qs
-    d = diff(iv, mv, rtol=RTOL, atol=ATOL)
-    return (d + note) if d else None
+    return diff(iv, mv, rtol=RTOL, atol=ATOL)
 
 
 # ---------------------------------------------------------------------------------------------
@@ -930,7 +915,7 @@ def classify(s, res=None):
     msgs = res.get('oracle') or []
     if k == 'model':
         if s.get('only_queries') and (any('NodeView.section' in m for m in msgs) or (not msgs and res.get('diff'))):
-            # pinned code: NodeView.section takes the section of the reference object in the mapped frame
+            # snapshot defect, fixed by 8e83d07: section of the reference object taken in the mapped frame
             return 'nodeview-section-wrong-frame'
         if msgs and any(p['rational'] for p in s['patches']) and vertex_alias(s):
             return 'rational-vertex-key-ignores-weight'
